@@ -87,14 +87,15 @@ def parse_missing(warnings, sheet):
 def c20_translations(s0: bool, s1: bool, s2: bool, s3: bool, s4: bool, s5: bool, s6: bool, s7: bool, c0: bool, c1: bool, c2: bool, rot: int, or_other: bool) -> bool:
     """
     vpre: s0 or s1
-    vpre: 0 <= rot <= 7
+    vpre: 0 <= rot <= 1
     vpost: _ == True
     """
     sf = (s0, s1, s2, s3, s4, s5, s6, s7)
     cf = (c0, c1, c2)
     row = {"type": "select_one l1" + (" or_other" if or_other else ""), "name": "q1", "constraint": ". != ''"}
     order = list(range(8))
-    order = order[rot:] + order[:rot]
+    if rot:
+        order = order[5:] + order[:5]
     for i in order:
         if sf[i]:
             row[S_COLS[i][0]] = "x"
@@ -134,13 +135,30 @@ specialise(
     "C20",
     "a.translations",
     c20_translations,
-    {"s0": [False, True], "s1": [False, True], "s2": [False, True], "c2": [False, True]},
-    reach_if=lambda fx: fx["s0"] and not fx["c2"],
+    {"s0": [False, True], "s1": [False, True], "s2": [False, True], "c2": [False, True], "s4": [False], "s6": [False], "c0": [True]},
+    skip_if=lambda fx: not (fx["s0"] or fx["s1"]),
+    reach_if=lambda fx: fx["s0"] and fx["s1"] and not fx["s2"] and not fx["c2"],
+    tiers=("quick",),
     timeout=500,
     kernel=K[:6] + (K[-1],),
     shims=("S1", "S2", "S4"),
-    symbolic="presence of hint::L1, hint::L2, image, image::L1, constraint_message::L1 (survey) and label, label::L1 (choices) headers, or_other flag (8 symbolic booleans), header order rotation (0..7)",
-    bounds="label, label::L1, hint and choices image::L2 presence fixed per instance: all subsets of 8 survey x 3 choices translatable columns over {default, L1, L2}",
+    symbolic="presence of hint::L1, image, constraint_message::L1 (survey) and label::L1 (choices) headers, or_other flag, header order rotation (6 symbolic booleans)",
+    bounds="label, label::L1, hint and choices image::L2 presence fixed per instance; hint::L2 and image::L1 absent, choices label present (quick tier)",
+    weight=120,
+)
+specialise(
+    "C20",
+    "a.translations-full",
+    c20_translations,
+    {"s0": [False, True], "s1": [False, True], "s2": [False, True], "s4": [False, True], "s6": [False, True], "c0": [False, True], "c2": [False, True]},
+    skip_if=lambda fx: not (fx["s0"] or fx["s1"]),
+    reach_if=lambda fx: False,
+    tiers=("thorough",),
+    timeout=600,
+    kernel=K[:6] + (K[-1],),
+    shims=("S1", "S2", "S4"),
+    symbolic="presence of hint::L1, image, constraint_message::L1 (survey) and label::L1 (choices) headers, or_other flag, header order rotation (6 symbolic booleans)",
+    bounds="the other 7 header presences fixed per instance: all subsets of 8 survey x 3 choices translatable columns over {default, L1, L2}",
     weight=150,
 )
 
@@ -314,7 +332,7 @@ specialise(
 def c20_row_triggers(trig: int, pos: int, blanks: int, l0: int, l1: int) -> bool:
     """
     vpre: 0 <= pos <= 2 and 0 <= blanks <= 2
-    vpre: 33 <= l0 <= 126 and l0 != 36 and 33 <= l1 <= 126 and l1 != 36
+    vpre: 97 <= l0 <= 122 and l1 == 66
     vpost: _ == True
     """
     lab = S(l0, l1)
